@@ -27,6 +27,12 @@ LINKS = ['[ link ]\nresname "A|B"\n[ bonds ]\n{la} +{fa} 1 0.40 400\n',
          '[ link ]\nresname "A|B"\n[ bonds ]\n{fa} >{fa} 6 0.9 10 {{"comment": "long"}}\n']
 
 
+# two non-conflicting links on the same junction: one re-types the first atom of the B residue, the other is written for the
+# block's own type of that atom (as every link derived from a dangling .itp interaction is)
+RETYPE = ['[ link ]\n[ atoms ]\na2 {"resname": "A"}\n+b1 {"resname": "B", "replace": {"atype": "TBcap", "charge": 0.25}}\n[ angles ]\na1 a2 +b1 2 111 11\n',
+          '[ link ]\n[ atoms ]\na2 {"resname": "A"}\n+b1 {"resname": "B", "atype": "TB1"}\n[ angles ]\na2 +b1 +b2 2 99 9\n']
+
+
 def pipeline(ff, meta):
     MapToMolecule(ff).run_molecule(meta)
     with patched(al, tqdm=_Tqdm):
@@ -68,7 +74,7 @@ TRANSFORMS_Q = [("reversed ints", "same", "same", "same"), ("large ints", "rever
 @condition("C13.relabel",
            anchors=["polyply.src.map_to_molecule:MapToMolecule.add_blocks", "polyply.src.apply_links:ApplyLinks.run_molecule",
                     "polyply.src.apply_links:_check_relative_order", "polyply.src.map_to_molecule:MapToMolecule.match_nodes_to_blocks"],
-           rejects=(), must_cover=["relabelled", "reordered definitions", "multi-residue"],
+           rejects=(), must_cover=["relabelled", "reordered definitions", "multi-residue", "attribute-replacing link next to a typed link"],
            stubs=["apply_links.tqdm -> plain iteration"],
            outside=["hash randomisation across processes (checks run with PYTHONHASHSEED=0 unless the caller sets it)", "residue graphs of more than 4 residues"],
            bounds={"quick": dict(nmax=3, transforms=TRANSFORMS_Q), "thorough": dict(nmax=4, transforms=TRANSFORMS_T)},
@@ -91,6 +97,10 @@ def relabel(sx, B):
         for x in ("A", "B"):
             for y in ("A", "B"):
                 ltexts.append(LINKS[k].format(la=specs[x].atoms[-1][0], fa=specs[y].atoms[0][0]))
+    if sx.sel("retyping_link", [False, True]):
+        ltexts += RETYPE
+        if any(names[u] != names[v] for u, v in GRAPHS[n][shape]):
+            sx.cover("attribute-replacing link next to a typed link")
 
     def build(order_mode):
         blocks = [("ff", block_text_ff(specs["A"])), ("itp", block_text_itp(specs["B"]))]
